@@ -175,3 +175,48 @@ def norm_linear(d):
         return None
     d = {s: c for s, c in d.items() if c != 0}
     return tuple(sorted(((str(s), c) for s, c in d.items())))
+
+
+def return_table(fn):
+    """{case key: returned value} for a function that maps its (first) parameter to a value by `switch` or by a chain of `if (p == K) return V;`
+    (any mixture): the key is what the facts at each `return` establish for the parameter; a return with no such fact is the default."""
+    import re
+    from .cfg import BranchFacts
+    if not fn.params:
+        return None
+    pname = fn.params[0]["n"]
+    bf = BranchFacts(fn, kill="assign")
+    out = {}
+    rets = [n for n in fn.nodes if n.get("k") == "return"]
+    if not rets:
+        return None
+    for n in rets:
+        e = core(n.child("e")) if "e" in n else None
+        val = None
+        if e is not None:
+            val = e.get("v") if e.get("k") in ("char", "int") else expr_str(e).split("::")[-1]
+        keys = []
+        for a, p in bf.at_node(n) or ():
+            if not p:
+                continue
+            k = None
+            if a.startswith("switch:") and a[7:].split("=")[0].split(".")[-1].strip("()") == pname:
+                k = a.split("=", 1)[1]
+            else:
+                m = re.match(r"^\((.+) == (.+)\)$", a)
+                if m:
+                    l, r_ = m.group(1).strip("()"), m.group(2).strip("()")
+                    if l == pname:
+                        k = r_
+                    elif r_ == pname:
+                        k = l
+            if k is not None:
+                k = k.split("::")[-1]
+                k = int(k) if re.match(r"^-?\d+$", k) else k
+                if k not in keys:
+                    keys.append(k)
+        # a switch case contributes both a switch: fact (enumerator name or value) and an equality fact on the value: prefer the name
+        names = [k for k in keys if not isinstance(k, int)]
+        for k in (names or keys or ["default"]):
+            out[k] = val
+    return out
